@@ -218,6 +218,9 @@ type replayPlan struct {
 func newReplayPlan(ctx *ReplayCtx) *replayPlan {
 	fn := ctx.Fn
 	v := ctx.V
+	if len(ctx.Part.inHost) > 0 {
+		return nil
+	}
 	rp := &replayPlan{ctx: ctx, objOf: map[int]int{}}
 	repObj := map[int]int{}
 	for i, p := range fn.Params {
@@ -601,6 +604,9 @@ func replayModel(repo string, o *Obligation, dir, id string) *replayResult {
 	ctx := o.Ctx
 	if ctx == nil {
 		return nil
+	}
+	if strings.Contains(ctx.Tags, "portable") {
+		ctx = &ReplayCtx{V: ctx.V, Pkg: ctx.Pkg, Fn: ctx.Fn, C: ctx.C, Part: ctx.Part, Tags: "purego", Repo: ctx.Repo}
 	}
 	rp := newReplayPlan(ctx)
 	if rp == nil {
